@@ -102,6 +102,8 @@ struct VState {
     sleeps: u64,
     fired: usize,
     cur: Option<usize>,
+    /// the WAL write lock is reported busy for this many more attempts (somebody else holds it)
+    busy_left: usize,
 }
 
 #[derive(Default)]
@@ -139,6 +141,13 @@ impl VfsFaults {
         s.armed = true;
         s.plan = plan;
     }
+    /// Somebody else holds the write lock: the next `w` attempts to take it find it busy.
+    pub fn arm_busy(&self, w: usize) {
+        let mut s = self.st.lock().unwrap();
+        *s = VState::default();
+        s.armed = true;
+        s.busy_left = w;
+    }
     pub fn disarm(&self) -> (Vec<String>, u64, usize) {
         let mut s = self.st.lock().unwrap();
         s.armed = false;
@@ -160,6 +169,16 @@ impl VfsHook for VfsFaults {
         s.cur = None;
         if !s.armed {
             return None;
+        }
+        // the write lock of the write-ahead log (lock byte 0, exclusive, acquire)
+        if s.busy_left > 0 {
+            if let VfsCall::ShmLock { offset: 0, flags, .. } = call {
+                if flags & 1 == 0 && flags & 8 != 0 {
+                    s.busy_left -= 1;
+                    s.fired += 1;
+                    return Some(5);
+                }
+            }
         }
         let Some(_) = natural_code(call, false) else { return None };
         // shm lock releases are never failed (flags & UNLOCK): SQLite ignores their result
@@ -386,6 +405,9 @@ pub fn run_case(sc: &mut Scenario, op: &FOp, arm: &dyn Fn(), disarm: &dyn Fn() -
     arm();
     let r = sc.s.apply(&sop, new_sid);
     let fired = disarm();
+    if std::env::var("TCSS_DEBUG_FAULT").is_ok() {
+        eprintln!("fault debug: fired={fired} answer={:?}", r);
+    }
     if fired == 0 {
         return FaultOutcome { class: "not-reached", violation: None, fired };
     }
@@ -561,6 +583,63 @@ pub fn worker_main() {
                         record(desc, o, &mut runs, &mut findings);
                     }
                     return json!({"runs": runs, "calls": 5, "classes": classes, "findings": findings});
+                }
+                if layer == "busy" {
+                    // Another connection holds the write lock while the request starts: the first
+                    // W attempts to take it find it busy (the busy handler's sleeps are virtual),
+                    // then it is free. For every W of the list; alone, and together with one SQL
+                    // statement of the request aborted at statement level.
+                    let dir = sc.s.sut.dir().unwrap().to_path_buf();
+                    // the other connection exists (and keeps the shared wal-index alive, so that
+                    // the request's own connection does not have to rebuild it - which would
+                    // need the very lock that is busy)
+                    // (opened after the files of the case are in place, closed after the request)
+                    let held: std::rc::Rc<std::cell::RefCell<Option<rusqlite::Connection>>> = Default::default();
+                    let ws: Vec<usize> = task["windows"].as_array().map(|a| a.iter().map(|x| x.as_u64().unwrap_or(1) as usize).collect()).unwrap_or_default();
+                    let stmts: Vec<Option<(&str, &str, &str)>> = vec![
+                        None,
+                        Some(("insert-into-versions", "BEFORE", "INSERT ON versions")),
+                        Some(("update-of-clients", "BEFORE", "UPDATE ON clients")),
+                        Some(("insert-into-clients", "BEFORE", "INSERT ON clients")),
+                    ];
+                    for w in ws {
+                        for st in &stmts {
+                            let desc = json!({"layer": "busy", "plan": {"write_lock_busy_for_attempts": w, "statement": st.map(|x| x.0)}});
+                            if let Some(o) = &only {
+                                if o != &desc["plan"] {
+                                    continue;
+                                }
+                            }
+                            let (d1, d2) = (dir.clone(), dir.clone());
+                            let sql = st.map(|(_, when, event)| format!("CREATE TRIGGER injected_fault {when} {event} BEGIN SELECT RAISE(ABORT, 'injected statement failure'); END;"));
+                            let va = vf.clone();
+                            let vd = vf.clone();
+                            let (h1, h2) = (held.clone(), held.clone());
+                            let arm = move || {
+                                if let Some(sql) = &sql {
+                                    if let Ok(con) = rusqlite::Connection::open(d1.join(DB_FILE)) {
+                                        let _ = con.execute_batch(sql);
+                                    }
+                                }
+                                if let Ok(h) = rusqlite::Connection::open(d1.join(DB_FILE)) {
+                                    let _: Result<i64, _> = h.query_row("SELECT count(*) FROM clients", [], |r| r.get(0));
+                                    *h1.borrow_mut() = Some(h);
+                                }
+                                va.arm_busy(w);
+                            };
+                            let disarm = move || -> usize {
+                                let fired = vd.disarm().2;
+                                drop(h2.borrow_mut().take());
+                                if let Ok(con) = rusqlite::Connection::open(d2.join(DB_FILE)) {
+                                    let _ = con.execute_batch("DROP TRIGGER IF EXISTS injected_fault;");
+                                }
+                                fired.max(1)
+                            };
+                            let o = run_case(&mut sc, &op, &arm, &disarm, Some(&vf));
+                            record(desc, o, &mut runs, &mut findings);
+                        }
+                    }
+                    return json!({"runs": runs, "calls": 0, "classes": classes, "findings": findings});
                 }
                 if layer == "trait" {
                     // unfaulted run to count the calls
